@@ -2528,7 +2528,8 @@ class Signature(object):
             )
             if int(s) > secp256k1_n // 2:
                 s = secp256k1_n - int(s)
-            return Signature(r, s, txid, secret, public_key=pub_key, k=k, hash_type=hash_type)
+            # the signature is public data: it does not keep the private key (nor the nonce, which reveals it)
+            return Signature(r, s, txid, public_key=pub_key, hash_type=hash_type)
         else:
             sk = ecdsa.SigningKey.from_string(private.private_byte, curve=ecdsa.SECP256k1)
             txid_bytes = to_bytes(txid)
@@ -2538,7 +2539,7 @@ class Signature(object):
             s = int(signature[64:], 16)
             if s > secp256k1_n // 2:
                 s = secp256k1_n - s
-            return Signature(r, s, txid, secret, public_key=pub_key, k=k, hash_type=hash_type)
+            return Signature(r, s, txid, public_key=pub_key, hash_type=hash_type)
 
     def __init__(self, r, s, txid=None, secret=None, signature=None, der_signature=None, public_key=None, k=None,
                  hash_type=SIGHASH_ALL):
